@@ -5,6 +5,15 @@ seeded changes from seeded/*/meta.json."""
 import json, os, re, glob
 V = os.path.dirname(os.path.dirname(os.path.abspath(__file__)))
 out = []
+import sys
+sys.path.insert(0, os.path.join(V, "bin"))
+import psvlib
+out.append("### A.4b Theorem inventory (every `theorem` in `lean/PsV/Props/<ID>.lean`; each is an audited obligation)\n")
+for f in sorted(glob.glob(os.path.join(V, "lean", "PsV", "Props", "C*.lean"))):
+    src = psvlib.strip_lean_comments(open(f).read())
+    names = re.findall(r"^(?:private\s+)?theorem\s+([^\s:({\[]+)", src, re.M)
+    out.append("* **%s** (%d): %s" % (os.path.basename(f)[:-5], len(names), ", ".join("`%s`" % n for n in names)))
+out.append("")
 out.append("### A.5 Per-property notes (from `integration/<ID>.json`, written by the builder of each check)\n")
 for f in sorted(glob.glob(os.path.join(V, "integration", "C*.json"))):
     d = json.load(open(f)); pid = os.path.basename(f)[:-5]
